@@ -187,6 +187,7 @@ def main():
     ap.add_argument('--slots', type=int, default=3)
     ap.add_argument('--jobs', type=int, default=4)
     ap.add_argument('--only', default=None)
+    ap.add_argument('--recheck', default=None, help='results file: run again only the mutants that were not caught (checks may have changed, or were being edited, since)')
     ap.add_argument('--out', default=os.path.join(VERIF, 'seeded', 'automut'))
     a = ap.parse_args()
     if subprocess.run(['git', '-C', REPO, 'status', '--porcelain'], stdout=subprocess.PIPE, text=True).stdout.strip():
@@ -209,12 +210,16 @@ def main():
         for k in keys:
             if groups[k] and len(chosen) < a.n:
                 chosen.append(groups[k].pop())
+    if a.recheck:
+        prev = json.load(open(a.recheck))['results']
+        keys = {(r['file'], r['line'], r['op'], r['k']) for r in prev if r['fate'] in ('survived-checks', 'inconclusive', 'tool-error')}
+        chosen = [s for s in allsites if (s['file'], s['line'], s['op'], s['k']) in keys]
     print(f'{len(allsites)} mutation sites, {len(chosen)} sampled (seed {a.seed})', flush=True)
     os.makedirs(SCRATCH, exist_ok=True)
     for i in range(a.slots):
         subprocess.run(['git', '-C', REPO, 'worktree', 'add', '-q', '--detach', f'{SCRATCH}/wt{i}', 'HEAD'], check=True)
     results = []
-    resfile = os.path.join(a.out, f'results-seed{a.seed}.json')
+    resfile = os.path.join(a.out, f'results-seed{a.seed}' + ('-recheck' if a.recheck else '') + '.json')
     try:
         import queue
         q = queue.Queue()
